@@ -176,8 +176,8 @@ parse_patterns_file(const char *filepath, FILE **infile, struct yr_pattern **pat
             blankline = 1;
             continue;
         }
-        if ((str[0] != '\n') && (str[0] != '\r') && (str[l - 1] == '\n')) {
-            /* remove ending newline */
+        if (str[l - 1] == '\n') {
+            /* remove ending newline, also of an empty line (empty <string>) and of a line that starts with CR */
             if ((l > 1) && (str[l - 2] == '\r') && (str[l - 1] == '\n')) {
                 str[l - 2] = '\0';
             } else {
